@@ -77,9 +77,7 @@ def _check_offset(out, mode, o, fns, buses, sub):
         try:
             phys = bus.get_address(a).physical
         except KeyError:
-            if model is None:
-                continue  # the optional low2 bus need not cover every bank
-            phys = "KeyError"
+            phys = "KeyError"  # the bus the assembler uses for this mode must map every address rom_to_snes produces
         if phys != o:
             out.bad(f"bus-agreement:{mode}:{name}", sub, f"{mode}: rom_to_snes({o:#x})={a:#x} but Bus({name}).physical = {phys}")
     if mode != "low2" or o < 0x200000:
